@@ -66,8 +66,8 @@ Definition ok_icmp6 (cfg : config) (v : l4view) (r : option bytes) : bool :=
         | None => false
         | Some (_, i, c) =>
           negb (di_v4 i) && (dc_type c =? 136) && (dc_code c =? 0) &&
-          (* flags: Solicited and Override set, Router clear; reserved zero *)
-          bytes_eqb (firstn 4 (dc_rest c)) [96; 0; 0; 0] &&
+          (* flags: Solicited and Override set (the property says nothing about the Router flag or the reserved bits) *)
+          (N.land (u8_at 0 (dc_rest c)) 96 =? 96) &&
           bytes_eqb (firstn 16 (skipn 4 (dc_rest c))) (firstn 16 (skipn 8 p)) &&
           (* exactly one option: Target Link-Layer Address = configured MAC *)
           bytes_eqb (skipn 20 (dc_rest c)) ([2; 1] ++ c_mac cfg)
